@@ -90,6 +90,42 @@ class Context:
         self._gtab[name] = r
         return r
 
+    def global_column_range(self, name, field):
+        """Range of member `field` over the elements of a constant table of records."""
+        for g in self.prog.globals.get(name, []):
+            if "init" not in g:
+                continue
+            exprs = g["exprs"]
+            top = exprs[g["init"]]
+            if top["k"] != "initlist":
+                continue
+            rec = None
+            from . import fieldinv
+            rec = fieldinv.rec_of_type(self.prog, g.get("t"))
+            if rec is None:
+                continue
+            names = [x["name"] for x in self.prog.records[rec]["fields"]]
+            if field not in names:
+                continue
+            k = names.index(field)
+            vals = []
+            for c in top.get("c", []):
+                el = exprs[c]
+                if el["k"] != "initlist" or k >= len(el.get("c", [])):
+                    if el["k"] == "zeroinit" or (el["k"] == "initlist" and not el.get("c")):
+                        vals.append(0)
+                        continue
+                    return None
+                out = []
+                if not self._flatten(exprs, el["c"][k], out):
+                    return None
+                vals.extend(out)
+            if top.get("filler"):
+                vals.append(0)
+            if vals:
+                return (min(vals), max(vals))
+        return None
+
     def never_written(self, name, unit):
         """A `static` table that no code of its unit stores to or hands out by
         (non-const) address is as good as const."""
